@@ -283,6 +283,11 @@ static void data_snapshot(void)
 ssize_t write(int fd, const void *buf, size_t n)
 {
 	if (fd == 1 && !realio) {
+		/* a server that does not stop writing (an endless loop around netnwrite) must not fill the disk:
+		 * no session of the checks gets anywhere near this much output */
+		static size_t wtotal;
+		wtotal += n;
+		if (wtotal > ((size_t)4 << 20)) { if (tr) { fputs("F output-limit\n", tr); fflush(tr); } syscall(SYS_exit_group, 95); }
 		if (n >= 4 && !memcmp(buf, "354 ", 4)) data_snapshot();
 		hexout("W", buf, n);
 		return (ssize_t)n;
